@@ -98,6 +98,74 @@ fn large_window<T: Scalar>(spec: &Spec, k: usize, sdepth: usize, st: &mut Stats,
     }
 }
 
+/// f64: a prefix of huge magnitude (1e15..1e17) before a suffix of ordinary values. A value-like
+/// output may keep rounding residue proportional to the largest magnitude seen (the running sums of
+/// Sma / Alma / Cumulative do); a bounded indicator or ratio has no such excuse: its scale does not
+/// depend on what preceded, so a spike that has left the window must leave no trace at all.
+fn spike_prefixes(spec: &Spec, k: usize, st: &mut Stats, sink: &Sink) {
+    st.configs += 1;
+    // PFE hands its ratio (which is as large as the spike while the spike is the oldest value of the
+    // window, see finding F12b) to the supplied moving average and so inherits that average's residue
+    let value_like = matches!(spec.kind, Kind::Sma | Kind::Cumulative | Kind::Min | Kind::Max | Kind::WelfordOnline | Kind::Alma | Kind::Pfe);
+    let prefixes: Vec<Vec<f64>> = vec![vec![1e17], vec![0.0, 1e17, 0.0], vec![-1e15, 1e15, 5.0], vec![1e17, -1e17, 1e17, 2.0]];
+    let suffixes: Vec<Vec<f64>> = if k <= 5 {
+        crate::explore::sequences(&Z3, k)
+    } else {
+        let mut v = vec![];
+        for b in super::common::bases(k) {
+            for s in crate::explore::sequences_upto(&Z3, 3) {
+                let mut h = b[..k].to_vec();
+                h.extend_from_slice(&s);
+                v.push(h[h.len() - k..].to_vec());
+            }
+        }
+        v
+    };
+    for p in &prefixes {
+        let spike = p.iter().fold(0.0f64, |m, x| m.max(x.abs()));
+        for s in &suffixes {
+            if holding::<f64>(spec, s) {
+                continue;
+            }
+            let r = crate::explore::guard(|| {
+                let mut a = build::<f64>(spec);
+                for x in p.iter().chain(s.iter()) {
+                    a.update(*x);
+                }
+                let mut f = build::<f64>(spec);
+                for x in s {
+                    f.update(*x);
+                }
+                (a.last(), f.last())
+            });
+            st.transitions += (p.len() + 2 * s.len()) as u64;
+            st.states += 1;
+            st.traces += 1;
+            st.oracle_evals += 1;
+            let mut full = p.clone();
+            full.extend_from_slice(s);
+            match r {
+                Ok((g, w)) => {
+                    let tol = if value_like { 64.0 * f64::EPSILON * spike } else { 1e-9 * (1.0 + w.map(|x| x.abs()).unwrap_or(0.0)) };
+                    let ok = match (g, w) {
+                        (None, None) => true,
+                        (Some(a), Some(b)) => a.is_finite() && (a - b).abs() <= tol,
+                        _ => false,
+                    };
+                    if !ok {
+                        sink.push(Violation::new("C03", spec, "prefix-independence", "f64", &full, format!("after a prefix of magnitude {:e} and the suffix {:?} (K={}) the view reports {:?}; a fresh instance fed the suffix alone reports {:?} (tolerance {:e})", spike, s, k, g, w, tol)).tag("after_spike"));
+                        return;
+                    }
+                }
+                Err(m) => {
+                    sink.push(Violation::new("C03", spec, "panicked", "f64", &full, m));
+                    return;
+                }
+            }
+        }
+    }
+}
+
 /// the statement's only exception: the view is explicitly holding its previous output
 fn holding<T: Scalar>(spec: &Spec, suffix: &[T]) -> bool {
     match spec.kind {
@@ -319,6 +387,14 @@ pub fn run(ctx: &Ctx) -> CheckOutput {
                 JobOut { stats: st, viols: sink.take(), samples: vec![json!({"explorer":"CLOSURE","scalar":"f64","view":spec.name(),"K":k,"alphabet":alpha,"closed":closed})] }
             }));
         }
+    }
+    for (spec, k) in configs(n_max).into_iter().chain([7usize, 12].iter().flat_map(|n| configs_for(*n))) {
+        jobs.push(Box::new(move || {
+            let mut st = Stats::default();
+            let sink = Sink::new();
+            spike_prefixes(&spec, k, &mut st, &sink);
+            JobOut { stats: st, viols: sink.take(), samples: vec![json!({"explorer":"prefix x suffix","scalar":"f64","view":spec.name(),"K":k,"prefixes":"spikes of 1e15..1e17"})] }
+        }));
     }
     // larger windows: prefix . base . suffix against a fresh instance fed the last K values
     for n in if quick { vec![7usize, 9, 12] } else { vec![7, 8, 9, 11, 12, 16] } {
